@@ -771,9 +771,14 @@ func CanonicalIsomorphAllocated(n, m int, neighbours [][]int, op *CanonicalOrder
 				} else if count > 0 && ints.HasPrefix(currentBestPath, path[:len(path)-1]) {
 					//Do the same for the currentBest unless the node is also on the path to the first leaf. The two sets of orbits are stored with different representatives so applying both tests at one node could skip every element of an orbit.
 					//Heuristic 2
-					if currentBestOrbits[choiceElement] >= 0 {
-						skipDeage = true
-						continue jLoop
+					//The orbits are started afresh at every new best leaf so their representatives change while the elements of this cell are tried. Being a representative therefore says nothing about which elements have been tried and an element is only skipped if it is in the same orbit as an element in a later position of the cell, all of which have been considered already.
+					cellEnd := op.binDividers[op.inCell[choiceElement]]
+					orbit := currentBestOrbits.FindBuffered(choiceElement, space)
+					for k := choicePosition + 1; k < cellEnd; k++ {
+						if currentBestOrbits.FindBuffered(op.order[k], space) == orbit {
+							skipDeage = true
+							continue jLoop
+						}
 					}
 				}
 
